@@ -66,6 +66,7 @@ package base
 //@   assert call ReadString#3 fid == 3 && ftyp == 11
 //@   assert call ReadMapBegin#1 fid == 6 && ftyp == 13
 //@   assert call Skip#1 !((fid == 1 || fid == 2 || fid == 3) && ftyp == 11) && !(fid == 6 && ftyp == 13)
+//@   assert call ReadString#5 0 <= off && off <= len(b)
 //@   ensures err == nil ==> 1 <= off && off <= len(b) && b[off-1] == 0
 //@   assigns p.LogID, p.Caller, p.Addr, p.Extra
 //@   loop 1 invariant 0 <= off && off <= len(b) && err == nil
@@ -116,6 +117,7 @@ package base
 //@   assert call ReadI32#1 fid == 2 && ftyp == 8
 //@   assert call ReadMapBegin#1 fid == 3 && ftyp == 13
 //@   assert call Skip#1 !(fid == 1 && ftyp == 11) && !(fid == 2 && ftyp == 8) && !(fid == 3 && ftyp == 13)
+//@   assert call ReadString#3 0 <= off && off <= len(b)
 //@   ensures err == nil ==> 1 <= off && off <= len(b) && b[off-1] == 0
 //@   assigns p.StatusMessage, p.StatusCode, p.Extra
 //@   loop 1 invariant 0 <= off && off <= len(b) && err == nil
